@@ -862,8 +862,13 @@ impl InternalKey {
 	pub(crate) fn cmp_by_timestamp(&self, other: &Self) -> Ordering {
 		// First compare by user key (ascending)
 		match self.user_key.cmp(&other.user_key) {
-			// If user keys are equal, compare by timestamp (descending - newer timestamps first)
-			Ordering::Equal => other.timestamp.cmp(&self.timestamp),
+			// If user keys are equal, compare by timestamp (descending - newer timestamps first).
+			// Two versions may carry the same timestamp: the later write (higher sequence
+			// number) comes first, so that they stay two distinct keys in the version index.
+			Ordering::Equal => other
+				.timestamp
+				.cmp(&self.timestamp)
+				.then_with(|| other.seq_num().cmp(&self.seq_num())),
 			ordering => ordering,
 		}
 	}
